@@ -64,6 +64,7 @@ func (m *Temporal) Decode(vector string) (*Temporal, error) {
 }
 
 func (m *Temporal) decodeOne(str string) error {
+	verifTrace("v2.temporal.decodeOne", m, str)
 	if err := m.Base.decodeOne(str); err != nil {
 		if !errs.Is(err, cvsserr.ErrNotSupportMetric) {
 			return errs.Wrap(err, errs.WithContext("metric", str))
